@@ -1,7 +1,7 @@
 """C12 — batches are independent components; slicing commutes with every operation."""
 from .condfam import *
 PROPERTY = "C12"
-LEAN_MODULES = ["GT.Props.C12"]
+LEAN_MODULES = ["GT.Props.C12", "GT.Props.C12Ext"]
 ASSUMPTIONS = ["float64 rounding outside the theorems; metamorphic relation evaluated on the implementation, both sides also compared with the model"]
 
 
